@@ -471,6 +471,11 @@ class Effects:
             self.roots(e.slice, fi, s, env, fld)
             # package signal objects: __getitem__ builds a new object through the constructor
             cls = self._class_of(e.value, fi, env)
+            if cls and isinstance(e.value, ast.Name) and isinstance(env.get(e.value.id), (set, frozenset)) and env[e.value.id] \
+                    and all(isinstance(r_, tuple) and len(r_) == 2 and r_[1] not in ("", None) for r_ in env[e.value.id]):
+                # the name was rebound to an ARRAY FIELD of an argument (`input = input.data`, through a helper or not): at this point it
+                # is a plain ndarray, whatever class the parameter was annotated with - slicing it gives a view of the caller's data
+                cls = []
             if cls:
                 out = set()
                 for c in cls:
